@@ -49,7 +49,8 @@ UniformOK(e) ==
 
 VARIABLES l, seen      \* seen: <<element id, bytes>> of the last encoding, to compare representatives across events
 EventOK(e) ==
-  CASE e.op = "rdecode" -> DecodeOK(e)
+  CASE e.op = "fresh" -> e.ok = TRUE      \* values handed to the caller are the caller's own (vfresh in the recorder)
+    [] e.op = "rdecode" -> DecodeOK(e)
     [] e.op = "rencode" -> LET Q == PtOf(e) IN
                            /\ ExtValid(Q) /\ e.out = EncodeBytes(Q, Roots(e))
                            /\ e.isid = (e.out = Zero32)
